@@ -149,6 +149,32 @@ func c07Case(t *rapid.T, ev *evProp, gi *GroupInfo, maxN int) {
 			fail("check", "Check(value of share %d presented with index %d) = %v, expected %v", i, j, pub.Check(wrongIdx), onPoly)
 		}
 	}
+	// what Eval / Shares / Commit hand out belongs to the caller: updating it in place must leave the
+	// polynomials as they were (for t = 1 an evaluation IS the constant coefficient)
+	{
+		wantCommit := mustMarshal(t, pub.Commit())
+		wantSecret := scalarToBig(pri.Secret())
+		k := rapid.IntRange(0, n-1).Draw(t, "ownidx")
+		e1 := pub.Eval(uint32(k))
+		e1.V.Add(e1.V, effBase)
+		e2 := pub.Shares(uint32(n))[k]
+		e2.V.Add(e2.V, effBase)
+		c1 := pub.Commit()
+		c1.Add(c1, effBase)
+		s1 := pri.Eval(uint32(k))
+		s1.V.Add(s1.V, g.Scalar().One())
+		// (PriPoly.Secret() hands out the constant coefficient itself; that accessor is not judged here,
+		// see DESIGN 6.3)
+		if got := mustMarshal(t, pub.Commit()); !bytes.Equal(got, wantCommit) {
+			fail("result-aliases-polynomial", "after the caller updated values returned by PubPoly.Eval/Shares/Commit in place, Commit() changed from %x to %x", wantCommit, got)
+		}
+		if got := scalarToBig(pri.Secret()); got.Cmp(wantSecret) != 0 {
+			fail("result-aliases-polynomial", "after the caller updated a value returned by PriPoly.Eval in place, Secret() changed from %x to %x", wantSecret, got)
+		}
+		if !pub.Check(shares[k]) || !pub.Eval(uint32(k)).V.Equal(pubShares[k].V) {
+			fail("result-aliases-polynomial", "after the caller updated returned values in place, share %d no longer checks / evaluates as before", k)
+		}
+	}
 	// subset selection
 	size := rapid.IntRange(0, n).Draw(t, "subsetsize")
 	perm := rapid.Permutation(seqInts(n)).Draw(t, "subsetperm")
